@@ -15,10 +15,10 @@ SPEC = {
             'subsets with F_remote 0..2 at the same boundaries, a signer unknown to RMNHome; classes nof / dupchain / baddest '
             '/ fewobs / fewsigners. Timer classes per phase: never (1 h, fires only after Reset(0) on an invalid response) / '
             'at start (1 ns). Send failures: none / some / most. Responses drawn online from what was actually sent: correct '
-            '(own id), 22 content corruptions (nil Observation/LaneDest/LaneSource/ClosedInterval/Root, short and long roots, '
+            '(own id), 23 content corruptions (no lane updates at all, nil Observation/LaneDest/LaneSource/ClosedInterval/Root, short and long roots, '
             'wrong dest/offramp/digest/interval/onramp, unrequested / duplicate / extra / missing lanes, conflicting and empty '
             'roots, bad signature, wrong or missing payload kind), 6 signature corruptions, duplicates, unknown ids, ids of '
-            'failed sends or of the other phase, node X under the id sent to node Y (F12b), nodes that were not asked or are '
+            'failed sends or of the other phase, node X under the id sent to node Y (F12b; also with an empty observation, the transformAndSortObservations [0] shape), nodes that were not asked or are '
             'unknown, garbage bytes; "villain" mode: Byzantine nodes vote the honest root with exactly one defect so that a '
             'missing check tips a threshold. Every item is delivered only when the controller goroutine is parked in select '
             '(runtime.Stack, one P), so the run is deterministic; race items (a response or a cancellation handed over at the '
@@ -44,14 +44,14 @@ SPEC = {
         'liveness only: Send calls succeed, request ids do not repeat (crypto/rand 64 bit), at most F_home dishonest '
         'observers per lane, honest nodes answer requests sent to them correctly',
     ],
-    'level_text': 'PARTIAL. Proof: 11 Coq theorems over the executable two-phase model, for every configuration, every schedule '
+    'level_text': 'PARTIAL. Proof: 13 Coq theorems over the executable two-phase model, for every configuration, every schedule '
                   'parameter and every event list (induction over the list): phase A hands on only with F_home+1 DISTINCT '
                   'configured observers per lane whose signed responses carry the same root for exactly the requested lane and '
                   'interval; success only with F_remote+1 DISTINCT configured signers valid for exactly the returned report, '
                   'ascending by address, lanes exactly the supported requested ones; terminal by the CtxDone event; no panic for '
                   'any event list; liveness (enough honest timely answers => success whatever else arrives); refutation '
                   'theorems with concrete witnesses for the pre-repair code (F12a nil sub-message / short root panics, F12b '
-                  'one node counted twice). Correspondence: the real controller is driven through generated schedules every '
+                  'one node counted twice, and the comparator panic that F12b made reachable); no node is sent two observation requests or has two accepted observations. Correspondence: the real controller is driven through generated schedules every '
                   'run and compared with the model on the full observable. Not covered (hence partial): which of several '
                   'simultaneously ready select cases Go picks beyond the pairs exercised as race items, and real wall-clock '
                   'deadlines (the model has the event CtxDone, timers are "due / not due")',
@@ -61,7 +61,7 @@ SPEC = {
     'modelled': 'ComputeReportSignatures, populateUpdatesPerChain and the F filter, getRmnSignedObservations (initial request '
                 'loop), sendObservationRequests, listenForRmnObservationResponses, parseResponse, '
                 'validateSignedObservationResponse (+ validateRootLengths), gotSufficientObservationResponses, selectRoots, '
-                'transformAndSortObservations (order only), sendReportSignatureRequest, listenForRmnReportSignatures, '
+                'transformAndSortObservations (order, and the index-out-of-range panic of its comparator for two observations of one node), sendReportSignatureRequest, listenForRmnReportSignatures, '
                 'validateReportSigResponse, sortAndParseReportSigs; GetRMNNodesInfo / GetF answers, chain-selectors lookup, '
                 'map orders, shuffles, request ids and Send failures are inputs of the model',
 }
